@@ -295,14 +295,14 @@ Proof.
   unfold all_tags_issues. rewrite (required_perm_tags _ _ _ Q1), (unique_perm_tags _ _ _ Q1). reflexivity.
 Qed.
 
-(* all group rules together, repaired duplicate check *)
+(* all group rules together, the code as it is (mode Fx) *)
 Lemma group_checks_perm_fixed nr nu top top' :
-  PermForest top top' -> forallb wft top = true -> forallb noempty_t top = true ->
+  PermForest top top' -> forallb wft top = true ->
   exists l l', group_checks Fx nr nu top = Ok l /\ group_checks Fx nr nu top' = Ok l' /\
                Permutation l l'.
 Proof.
-  intros Hp Hw Hn.
-  destruct (check_dup_perm_fixed _ _ Hp Hw Hn) as (d & D1 & D2).
+  intros Hp Hw.
+  destruct (check_dup_perm_fixed _ _ Hp Hw) as (d & D1 & D2).
   unfold group_checks. rewrite !tag_level_ok, D1, D2. cbn [bind].
   eexists; eexists; split; [reflexivity|split; [reflexivity|]].
   rewrite (all_tags_issues_perm nr nu _ _ Hp).
@@ -310,7 +310,8 @@ Proof.
   apply Permutation_app_head. apply duration_perm. exact Hp.
 Qed.
 
-(* the same for the code as it is, for everything except the duplicate check *)
+(* the same for every state m of the duplicate check (before or after the fix commits),
+   for everything except the duplicate reports *)
 Lemma group_checks_perm_except_dups m nr nu top top' :
   PermForest top top' ->
   forall d d', check_for_duplicate_groups m top = Ok d -> check_for_duplicate_groups m top' = Ok d' ->
@@ -423,18 +424,14 @@ Proof.
   induction IH as [|x l Hx _ IHl]; [reflexivity|]. cbn [map forallb]. rewrite Hx, IHl. reflexivity.
 Qed.
 
-(* THEOREM: every group rule (repaired duplicate check) gives the same issue
+(* THEOREM: every group rule (the code as it is) gives the same issue
    list on two respellings of an annotation *)
 Lemma group_checks_respell_fixed nr nu top top' :
-  Respell top top' -> forallb wft top = true -> forallb noempty_t top = true ->
+  Respell top top' -> forallb wft top = true ->
   exists l, group_checks Fx nr nu top = Ok l /\ group_checks Fx nr nu top' = Ok l.
 Proof.
-  intros Hr Hw Hn.
-  assert (Hn' : forallb noempty_t top' = true).
-  { assert (E : forall l, forallb noempty_t (map strip l) = forallb noempty_t l).
-    { intro l. induction l as [|x l IH]; [reflexivity|]. cbn [map forallb]. rewrite noempty_t_strip, IH. reflexivity. }
-    rewrite <- E, <- Hr, E. exact Hn. }
-  unfold group_checks. rewrite !tag_level_ok, !check_dup_ok by assumption. cbn [bind].
+  intros Hr Hw.
+  unfold group_checks. rewrite !tag_level_ok, !(check_dup_total Fx) by reflexivity. cbn [bind].
   eexists; split; [reflexivity|].
   rewrite <- (all_tags_issues_strip nr nu top), <- (all_tags_issues_strip nr nu top').
   rewrite <- (tag_level_strip top), <- (tag_level_strip top').
@@ -479,47 +476,116 @@ Definition dup_issue_count (m : mode) (top : list tree) : option nat :=
   match check_for_duplicate_groups m top with Ok l => Some (length l) | Exn _ => None end.
 
 Lemma dup_count_perm_fixed top top' :
-  PermForest top top' -> forallb wft top = true -> forallb noempty_t top = true ->
+  PermForest top top' -> forallb wft top = true ->
   exists n, dup_issue_count Fx top = Some n /\ dup_issue_count Fx top' = Some n.
 Proof.
-  intros Hp Hw Hn. destruct (check_dup_perm_fixed _ _ Hp Hw Hn) as (d & D1 & D2).
+  intros Hp Hw. destruct (check_dup_perm_fixed _ _ Hp Hw) as (d & D1 & D2).
   exists (length d). unfold dup_issue_count. rewrite D1, D2. auto.
 Qed.
 
 Lemma check_dup_respell_fixed top top' :
-  Respell top top' -> forallb wft top = true -> forallb noempty_t top = true ->
+  Respell top top' -> forallb wft top = true ->
   exists iss, check_for_duplicate_groups Fx top = Ok iss /\ check_for_duplicate_groups Fx top' = Ok iss.
 Proof.
-  intros Hr Hw Hn.
-  assert (Hn' : forallb noempty_t top' = true).
-  { assert (E : forall l, forallb noempty_t (map strip l) = forallb noempty_t l).
-    { intro l. induction l as [|x l IH]; [reflexivity|]. cbn [map forallb]. rewrite noempty_t_strip, IH. reflexivity. }
-    rewrite <- E, <- Hr, E. exact Hn. }
-  exists (dup_issues_p Fx top). rewrite !check_dup_ok by assumption.
+  intros Hr Hw.
+  exists (dup_issues_p Fx top). rewrite !(check_dup_total Fx) by reflexivity.
   fold (dup_issues_p Fx top). fold (dup_issues_p Fx top').
   rewrite (dup_respell_fixed _ _ Hr Hw). split; reflexivity.
 Qed.
 
-Lemma check_dup_complete_fixed l1 a l2 b l3 :
-  let top := l1 ++ a :: l2 ++ b :: l3 in
-  forallb wft top = true -> forallb noempty_t top = true ->
+(* two members of the top level or of a group at ANY depth that are equal up to recursive
+   reordering or spelling are reported, as repeated tag / repeated group according to what they are *)
+Lemma check_dup_complete_fixed top g l1 a l2 b l3 :
+  forallb wft top = true -> In g (all_levels top) -> g = l1 ++ a :: l2 ++ b :: l3 ->
   (PermTree a b \/ strip a = strip b) ->
-  exists k iss, check_for_duplicate_groups Fx top = Ok (k :: iss).
+  exists iss, check_for_duplicate_groups Fx top = Ok iss /\ In (kind_of_tree a) iss.
 Proof.
-  intros top Hw Hn Hab.
+  intros Hw Hg Eg Hab.
+  assert (Hwg : forallb wft g = true) by (eapply wft_levels; eauto).
   assert (Hwa : wft a = true /\ wft b = true).
-  { unfold top in Hw. rewrite forallb_app in Hw. apply andb_true_iff in Hw as [_ Hw].
-    cbn [forallb] in Hw. apply andb_true_iff in Hw as [Hwa Hw]. split; [exact Hwa|].
-    rewrite forallb_app in Hw. apply andb_true_iff in Hw as [_ Hw].
-    cbn [forallb] in Hw. apply andb_true_iff in Hw as [Hwb _]. exact Hwb. }
+  { rewrite Eg in Hwg. rewrite forallb_app in Hwg. apply andb_true_iff in Hwg as [_ Hwg].
+    cbn [forallb] in Hwg. apply andb_true_iff in Hwg as [Hwa Hwg]. split; [exact Hwa|].
+    rewrite forallb_app in Hwg. apply andb_true_iff in Hwg as [_ Hwg].
+    cbn [forallb] in Hwg. apply andb_true_iff in Hwg as [Hwb _]. exact Hwb. }
   destruct Hwa as [Hwa Hwb].
   assert (Hc : csv a = csv b).
   { destruct Hab as [Hp|Hs].
     - apply csv_perm; assumption.
     - rewrite <- (csv_strip a Hwa), <- (csv_strip b Hwb), Hs. reflexivity. }
-  pose proof (dup_complete_fixed l1 a l2 b l3 Hw Hc) as Hne. fold top in Hne.
-  rewrite (check_dup_ok Fx top Hn). fold (dup_issues_p Fx top).
-  destruct (dup_issues_p Fx top) as [|k iss]; [contradiction|]. eauto.
+  exists (dup_issues_p Fx top). split; [apply check_dup_total; reflexivity|].
+  eapply dup_complete_anywhere; eauto.
+Qed.
+
+(* the code as it is (since fix commit 3e47c8c): the group rules never raise *)
+Lemma check_dup_never_raises top : exists iss, check_for_duplicate_groups Fx top = Ok iss.
+Proof. eexists. apply check_dup_total. reflexivity. Qed.
+
+Lemma group_checks_never_raise nr nu top : exists iss, group_checks Fx nr nu top = Ok iss.
+Proof.
+  unfold group_checks. rewrite tag_level_ok, (check_dup_total Fx) by reflexivity. cbn [bind]. eexists. reflexivity.
+Qed.
+
+(* the empty-group rule: every empty group "()" anywhere in the annotation is reported
+   (HED_GROUP_EMPTY, published as TAG_EMPTY) *)
+Fixpoint has_empty_group (t : tree) : bool :=
+  match t with T _ => false | G l => null l || existsb has_empty_group l end.
+
+Lemma walk_p_empty t : has_empty_group t = true -> forall b, In K_GROUP_EMPTY (walk_p b t).
+Proof.
+  induction t as [a|l IH] using tree_ind2; intros H b; [discriminate|].
+  cbn [has_empty_group] in H. cbn [walk_p]. apply orb_true_iff in H as [H|H].
+  - destruct l; [|discriminate]. left. reflexivity.
+  - apply in_or_app. right. apply existsb_exists in H as (c & Hc & Hce).
+    rewrite in_flat_map. exists c. split; [exact Hc|]. rewrite Forall_forall in IH. apply IH; assumption.
+Qed.
+
+Lemma empty_group_reported top :
+  existsb has_empty_group top = true ->
+  exists iss, tag_level_issues top = Ok iss /\ In K_GROUP_EMPTY iss.
+Proof.
+  intro H. exists (tag_level_p top). split; [apply tag_level_ok|].
+  unfold tag_level_p. apply in_or_app. right. apply existsb_exists in H as (c & Hc & Hce).
+  rewrite in_flat_map. exists c. split; [exact Hc|]. apply walk_p_empty. exact Hce.
+Qed.
+
+(* ... and nothing else is: without an empty group the rule is silent *)
+Lemma ctl_p_no_empty tags a b : ~ In K_GROUP_EMPTY (ctl_p tags a b).
+Proof.
+  unfold ctl_p. intro H. apply in_app_or in H as [H|H].
+  - rewrite in_flat_map in H. destruct H as (x & _ & H). destruct b; [destruct H|destruct H as [E|[]]; discriminate].
+  - apply in_app_or in H as [H|H].
+    + rewrite in_flat_map in H. destruct H as (x & _ & H). unfold top_issue in H.
+      destruct a; [destruct H|]. apply in_app_or in H as [H|H].
+      * destruct (t_base x =? B_DEFINITION); [destruct H as [E|[]]; discriminate|].
+        destruct (is_all_time (t_base x)); [destruct H as [E|[]]; discriminate|destruct H].
+      * destruct H as [E|[]]; discriminate.
+    + destruct (a && (1 <? length (filter t_tl tags))); [|destruct H].
+      destruct (ctl_mult_p (filter t_tl tags)); [destruct H as [E|[]]; discriminate|destruct H].
+Qed.
+
+Lemma walk_p_no_empty t : has_empty_group t = false -> forall b, ~ In K_GROUP_EMPTY (walk_p b t).
+Proof.
+  induction t as [a|l IH] using tree_ind2; intros H b Hin; [destruct Hin|].
+  cbn [has_empty_group] in H. apply orb_false_iff in H as [Hn He]. cbn [walk_p] in Hin.
+  apply in_app_or in Hin as [Hin|Hin].
+  - unfold level_p in Hin. rewrite Hn in Hin. cbn [andb app] in Hin. exact (ctl_p_no_empty _ _ _ Hin).
+  - rewrite in_flat_map in Hin. destruct Hin as (c & Hc & Hin). rewrite Forall_forall in IH.
+    apply (IH c Hc) with (b := false); [|exact Hin].
+    destruct (has_empty_group c) eqn:E; [|reflexivity].
+    assert (existsb has_empty_group l = true) by (apply existsb_exists; exists c; auto). congruence.
+Qed.
+
+Lemma empty_group_only top :
+  existsb has_empty_group top = false ->
+  exists iss, tag_level_issues top = Ok iss /\ ~ In K_GROUP_EMPTY iss.
+Proof.
+  intro H. exists (tag_level_p top). split; [apply tag_level_ok|].
+  unfold tag_level_p. intro Hin. apply in_app_or in Hin as [Hin|Hin].
+  - unfold level_p in Hin. rewrite andb_false_r in Hin. cbn [app] in Hin. exact (ctl_p_no_empty _ _ _ Hin).
+  - rewrite in_flat_map in Hin. destruct Hin as (c & Hc & Hin).
+    apply (walk_p_no_empty c) with (b := true); [|exact Hin].
+    destruct (has_empty_group c) eqn:E; [|reflexivity].
+    assert (existsb has_empty_group top = true) by (apply existsb_exists; exists c; auto). congruence.
 Qed.
 
 Lemma sort_k_is_stable_sort {A} (l : list (str * A)) :
@@ -530,7 +596,7 @@ Proof.
   split; [apply sort_k_perm|]. split; [apply sort_k_sorted|]. intro k. apply sort_k_stable.
 Qed.
 
-(* the text key of the repaired sort determines the sorted form up to spelling *)
+(* the text key of the canonical sort (HedGroup._sort_key) determines the sorted form up to spelling *)
 Lemma vkey_injective v w :
   wfc (canon v) = true -> wfc (canon w) = true -> vkey Fx v = vkey Fx w -> veq Fx v w = true.
 Proof.
